@@ -1,7 +1,8 @@
 (* C18 driver.  One request per line:
-     hist P:<id>:<key|->:<sn|->:<iid.fmt,...|-> ... A:<hdr>:<body> | R:<id>:<sn> ...
+     hist P:<id>:<key|->:<sn|->:<persisted sn|->:<iid.fmt,...|-> ...
+          A:<hdr>:<body> | R:<id>:<sn> (regular adv) | O:<id>:<sn> (populate) | U:<id>:<sn> (_update_state_num) | X (restart) ...
    body = S.<key>.<ctr>.<aad>.<pt> | J | H.<n,n,...|-> | E
-   answer: one token per event  <outcome>/<calls|->/<sn,sn,...>  (sn of every pairing, - = None)
+   answer: one token per event  <outcome>/<calls|->/<sn,sn,...>/<psn,psn,...>  (description / persisted number of every pairing, - = None)
      val <fmt> <hex>      -> from_bytes on its own *)
 open Drv
 let split c s = Stdlib.String.split_on_char c s
@@ -13,7 +14,7 @@ let fmt_of = function
 let chars_of s = if s = "-" then [] else
   Stdlib.List.map (fun t -> match split '.' t with [i; f] -> (n_of_dec i, fmt_of f) | _ -> failwith "char") (split ',' s)
 let pairing_of t = match split ':' t with
-  | ["P"; id; k; sn; cs] -> { Bcast.p_id = bytes_of_hex id; p_key = opt_n k; p_sn = opt_n sn; p_chars = chars_of cs }
+  | ["P"; id; k; sn; psn; cs] -> { Bcast.p_id = bytes_of_hex id; p_key = opt_n k; p_sn = opt_n sn; p_psn = opt_n psn; p_chars = chars_of cs }
   | _ -> failwith "pairing"
 let body_of s = match split '.' s with
   | ["S"; k; ctr; aad; pt] -> Bcast.PSeal (n_of_dec k, n_of_dec ctr, bytes_of_hex aad, bytes_of_hex pt)
@@ -36,20 +37,23 @@ let out_str = function
 let call_str (((id, aid), iid), v) = hex_of_bytes id ^ "." ^ dec_of_n aid ^ "." ^ dec_of_n iid ^ "." ^ val_str v
 let calls_str l = if l = [] then "-" else Stdlib.String.concat "+" (Stdlib.List.map call_str l)
 let sns_str c = Stdlib.String.concat "," (Stdlib.List.map (fun p -> match p.Bcast.p_sn with None -> "-" | Some n -> dec_of_n n) c)
+let psns_str c = Stdlib.String.concat "," (Stdlib.List.map (fun p -> match p.Bcast.p_psn with None -> "-" | Some n -> dec_of_n n) c)
 let handle = function
   | "hist" :: toks ->
       let ps = Stdlib.List.filter (fun t -> t.[0] = 'P') toks in
       let evs = Stdlib.List.filter (fun t -> t.[0] <> 'P') toks in
       let c = ref (Stdlib.List.map pairing_of ps) in
       let outs = Stdlib.List.map (fun t ->
-        match split ':' t with
-        | ["A"; hdr; body] ->
-            let ((c', o), cl) = Bcast.detect !c (bytes_of_hex hdr, body_of body) in
-            c := c'; out_str o ^ "/" ^ calls_str cl ^ "/" ^ sns_str c'
-        | ["R"; id; sn] ->
-            c := Bcast.plain_adv !c (bytes_of_hex id) (n_of_dec sn);
-            "plain/-/" ^ sns_str !c
-        | _ -> failwith "event") evs in
+        let op = match split ':' t with
+          | ["A"; hdr; body] -> Bcast.OAdv (bytes_of_hex hdr, body_of body)
+          | ["R"; id; sn] -> Bcast.OPlain (bytes_of_hex id, n_of_dec sn)
+          | ["O"; id; sn] -> Bcast.OPopulate (bytes_of_hex id, n_of_dec sn)
+          | ["U"; id; sn] -> Bcast.OUpdate (bytes_of_hex id, n_of_dec sn)
+          | ["X"] -> Bcast.ORestart
+          | _ -> failwith "event" in
+        let ((c', o), cl) = Bcast.apply !c op in
+        c := c';
+        (match op with Bcast.OAdv _ -> out_str o | _ -> "op") ^ "/" ^ calls_str cl ^ "/" ^ sns_str c' ^ "/" ^ psns_str c') evs in
       if outs = [] then "." else Stdlib.String.concat " " outs
   | ["val"; f; h] ->
       (match Bcast.from_bytes (fmt_of f) (bytes_of_hex h) with
